@@ -357,7 +357,10 @@ def main():
             # retried with few processes before it is allowed to make the check inconclusive
             if "__build_error__" not in results:
                 again = [h for h, r in results.items() if r["status"] in ("oom", "timeout", "missing", "error", "unknown")]
-                if again:
+                # (no retry when another harness of the group already failed an assertion: the
+                # verdict will come from that counterexample, and on changed code the heavy
+                # queries can take an hour each)
+                if again and not any(r["status"] == "failed" for r in results.values()):
                     opts2 = dict(opts)
                     opts2["harness_timeout_min"] = {tier: 2 * opts.get("harness_timeout_min", {}).get(tier, 10 if tier == "quick" else 60)}
                     r2, out2, wall2 = run_kani(crate, again, tier, opts2, tdir_suffix=tsuf(prop), jobs=3)
